@@ -41,8 +41,12 @@ func (d c33IceDecoder) Decode(ctx context.Context, segmentKey, indexKey, topic s
 		return nil, err
 	}
 	out := make([]decoder.Record, 0, len(s.Recs))
+	arena := make([]byte, 0, d.w.ValueBytes(s)) // all values of this call in one fresh allocation
+	key := []byte("k")
+	var v []byte
 	for _, r := range s.Recs {
-		out = append(out, decoder.Record{Topic: s.Topic, Partition: s.Part, Offset: r.Off, Timestamp: 1000 + r.Off, Key: []byte("k"), Value: d.w.Value(s, r)})
+		arena, v = d.w.AppendValue(arena, s, r)
+		out = append(out, decoder.Record{Topic: s.Topic, Partition: s.Part, Offset: r.Off, Timestamp: 1000 + r.Off, Key: key, Value: v})
 	}
 	return out, nil
 }
@@ -108,11 +112,10 @@ func (s c33IceStore) CommitOffset(ctx context.Context, state checkpoint.OffsetSt
 type c33IceSink struct{ w *c33World }
 
 func (s c33IceSink) Write(ctx context.Context, records []sink.Record) error {
-	out := make([]c33Out, 0, len(records))
-	for _, r := range records {
-		out = append(out, c33Out{Topic: r.Topic, Part: r.Partition, Off: r.Offset, Value: append([]byte(nil), r.Value...)})
-	}
-	return s.w.SinkWrite(out)
+	return s.w.SinkWrite(len(records), func(i int) c33Out {
+		r := &records[i]
+		return c33Out{Topic: r.Topic, Part: r.Partition, Off: r.Offset, Value: r.Value}
+	})
 }
 
 func (s c33IceSink) Close(ctx context.Context) error { return nil }
@@ -134,9 +137,10 @@ func c33IceEncodeLFS(key string, blob []byte) []byte {
 }
 
 func TestVerifC33Iceberg(t *testing.T) {
+	c33TuneRaceRuntime()
 	r := verifkit.Start(t, "C33", "iceberg")
 	defer r.Finish(c33Rule, c33Assumptions...)
-	caps := c33Caps{Proc: "iceberg", LFS: true, PollSecs: []int{5, 1, 7, 12}, RandQuick: 100, RandThorough: 2000, RandLargeQuick: 60, RandLargeThorough: 1200, EncodeLFS: c33IceEncodeLFS}
+	caps := c33Caps{Proc: "iceberg", LFS: true, PollSecs: []int{5, 1, 7, 12}, RandQuick: 100, RandThorough: 2000, RandLargeQuick: 40, RandLargeThorough: 1200, EncodeLFS: c33IceEncodeLFS}
 	build := func(w *c33World) func(ctx context.Context) error {
 		var store checkpoint.Store = c33IceStore{w: w}
 		if w.c.Store == "default" {
